@@ -1,5 +1,5 @@
 (* C09 — changes and patch files are applied strictly in order. *)
-From GP Require Import Tree Meta Match Replace FileEngine Program ProgramFacts.
+From GP Require Import Tree Meta Match Replace FileEngine Program ProgramFacts Bytes Loader LoaderFacts.
 
 (* The loop over changes is a left fold: applying cs1 ++ cs2 is applying cs2 to the state
    (file, errors) that cs1 left behind; each change is matched against the file the
@@ -41,3 +41,40 @@ Theorem C09_failure_reported : forall ab s c,
   ps_errs s <> [] -> ps_errs (pstep ab s c) <> [].
 Proof. exact pstep_error_kept. Qed.
 Print Assumptions C09_failure_reported.
+
+(* ---- which patch files are loaded, in which order (Model/Loader.v: main.go loadPatches, loader.go) ----
+   the -p files in the order given, then the files the -P list names, in the order of its lines; a
+   file named twice is loaded twice; standard input is not read *)
+Theorem C09_patch_files_in_order : forall P read compile patches lp content stdin prs1 prs2,
+  read lp = Some content ->
+  Forall2 (fun p pr => load_file P read compile p = Some pr) patches prs1 ->
+  Forall2 (fun p pr => load_file P read compile p = Some pr) (listed content) prs2 ->
+  load_patches P read compile patches (Some lp) stdin = LOk (prs1 ++ prs2).
+Proof. exact load_order. Qed.
+Print Assumptions C09_patch_files_in_order.
+
+Theorem C09_patch_files_in_order_no_list : forall P read compile patches stdin prs, patches <> [] ->
+  Forall2 (fun p pr => load_file P read compile p = Some pr) patches prs ->
+  load_patches P read compile patches None stdin = LOk prs.
+Proof. exact load_order_no_list. Qed.
+Print Assumptions C09_patch_files_in_order_no_list.
+
+(* standard input is the patch exactly when neither -p nor -P is given *)
+Theorem C09_stdin_only_without_flags : forall P read compile patches plist s1 s2,
+  (patches <> [] \/ plist <> None) ->
+  load_patches P read compile patches plist s1 = load_patches P read compile patches plist s2.
+Proof. exact stdin_ignored. Qed.
+Print Assumptions C09_stdin_only_without_flags.
+
+Theorem C09_stdin_is_the_patch : forall P read compile stdin pr,
+  compile STDIN_NAME stdin = Some pr -> load_patches P read compile [] None stdin = LOk [pr].
+Proof. exact load_stdin. Qed.
+Print Assumptions C09_stdin_is_the_patch.
+
+(* the first patch file that cannot be read or does not compile ends the loading and is the one named;
+   nothing is applied *)
+Theorem C09_first_bad_patch_file_is_reported : forall P read compile ps1 p ps2 plist stdin prs,
+  Forall2 (fun q pr => load_file P read compile q = Some pr) ps1 prs -> load_file P read compile p = None ->
+  load_patches P read compile (ps1 ++ p :: ps2) plist stdin = LErr 1 p.
+Proof. exact load_first_failure_p. Qed.
+Print Assumptions C09_first_bad_patch_file_is_reported.
